@@ -117,7 +117,18 @@ def job_hist(P, C, D, first, kind, ops, length):
         P.run("-".join(seq), sc_history, dict(C=C, D=D, ops=seq, kind=kind), validate=1 if len(set(seq)) == len(seq) else 0)
 
 
+def sc_default(B, C):
+    """a machine built without weights starts from the uniform mixture"""
+    gmm = B.mod("gmm")
+    m = gmm.GMMMachine(C)
+    o = Outcome()
+    o.equal("default-weights-uniform", m.weights, [1.0 / C] * C)
+    return o
+
+
 def job_ctor(P, C, D):
+    for c in (1, 2, 3, 5):
+        P.run("default-weights-%d" % c, sc_default, dict(C=c), validate=1)
     for op in OPS:
         P.run("ctor-weights-" + op, sc_history, dict(C=C, D=D, ops=(op,), kind="ml", ctor="weights"), validate=0)
     P.run("ctor-map", sc_history, dict(C=C, D=D, ops=(), kind="map"), validate=1)
